@@ -373,33 +373,91 @@ def check_defaults_untouched(ctx: Ctx):
         ctx.decide("R19.2", f, f.node, f"{ech.qual}:partial-coverage", "a handler covering only some metrics loads with exactly those metrics", isinstance(got, dict) and len(got) == 1, {"metrics": len(got) if isinstance(got, dict) else repr(got)})
 
 
+class _YamlV:
+    """a ruamel YAML() object: its typ and the attributes set on it"""
+
+    def __init__(self, typ):
+        self.typ = typ
+        self.attrs = {}
+
+
+class _YM:
+    def __init__(self, o, name):
+        self.o, self.name = o, name
+
+
 def check_yaml_dialect(ctx: Ctx):
     """R19.6: the YAML object that dumps a configuration and the one that loads it are set up
     alike where that changes how scalars resolve: same `typ`, same `version` (YAML 1.1 reads
-    yes/no/on/off/y/n as booleans, 1.2 - the dumper's default - writes them as plain strings)."""
+    yes/no/on/off/y/n as booleans, 1.2 - the dumper's default - writes them as plain strings).
+    _load_yaml and _save_yaml are run abstractly (helpers inlined); the state of the YAML object
+    at the load / dump call is compared."""
+    from ..absval import Interp, enumerate_paths
+
     prog = ctx.prog
-    sides = {}
+
+    class YamlInterp(Interp):
+        def external_call(self, name, args, kwargs, node):
+            if name.split(".")[-1] == "YAML" and "yaml" in name.lower():
+                typ = kwargs.get("typ", args[0] if args else "rt")
+                return _YamlV(typ)
+            if name.endswith("Path"):
+                return Sym("PATH")
+            return super().external_call(name, args, kwargs, node)
+
+        def get_attr(self, base, attr, node):
+            if isinstance(base, _YamlV):
+                if attr in ("load", "dump", "register_class"):
+                    return _YM(base, attr)
+                if attr in base.attrs:
+                    return base.attrs[attr]
+                return Sym(f"yaml.{attr}")
+            return super().get_attr(base, attr, node)
+
+        def store_attr_hook(self, base, attr, v, node):
+            if isinstance(base, _YamlV):
+                base.attrs[attr] = v
+                return
+            return super().store_attr_hook(base, attr, v, node)
+
+        def apply(self, fv, args, kwargs, node):
+            if isinstance(fv, _YM):
+                if fv.name in ("load", "dump"):
+                    self.root.yaml_calls.append((fv.name, fv.o.typ, fv.o.attrs.get("version", "default"), node))
+                    return Sym("DATA") if fv.name == "load" else None
+                return None
+            return super().apply(fv, args, kwargs, node)
+
+    states = {}
     for role, ref in (("load", "utils.config:_load_yaml"), ("dump", "utils.config:_save_yaml")):
         f = prog.func(ref)
-        typ = version = "default"
-        var = None
-        for n in walk_no_nested(f.node):
-            if isinstance(n, ast.Assign) and isinstance(n.value, ast.Call) and (dotted(n.value.func) or "").split(".")[-1] == "YAML" and len(n.targets) == 1 and isinstance(n.targets[0], ast.Name):
-                var = n.targets[0].id
-                for k in n.value.keywords:
-                    if k.arg == "typ":
-                        typ = norm(k.value)
-                if n.value.args:
-                    typ = norm(n.value.args[0])
-        if var is None:
-            ctx.undecided("R19.6", f, f.node, f"{f.qual}:yaml-object", "no YAML(...) construction found")
+        holder = []
+
+        def make(prefix, f=f):
+            args = {}
+            for p in f.call_params:
+                args[p.name] = None if "class" in p.name else Sym("ARG_" + p.name)
+            it = YamlInterp(prog, f, args, prefix=prefix)
+            it.root.yaml_calls = []
+            holder.append(it)
+            return it
+
+        try:
+            outs = enumerate_paths(make, max_paths=32)
+        except Undecided as e:
+            ctx.undecided("R19.6", f, f.node, f"{f.qual}:yaml-object", f"not evaluable: {e}")
             return
-        for n in walk_no_nested(f.node):
-            if isinstance(n, ast.Assign) and len(n.targets) == 1 and isinstance(n.targets[0], ast.Attribute) and isinstance(n.targets[0].value, ast.Name) and n.targets[0].value.id == var and n.targets[0].attr == "version":
-                version = norm(n.value)
-        sides[role] = (f, typ, version)
-    (fl, tl, vl), (fd, td, vd) = sides["load"], sides["dump"]
-    ctx.decide("R19.6", fl, fl.node, "yaml:dialect-agreement", "loader and dumper use the same YAML typ and version (scalars resolve alike on both sides)", tl == td and vl == vd, {"load": {"typ": tl, "version": vl}, "dump": {"typ": td, "version": vd}})
+        st = set()
+        for out, it in zip(outs, holder):
+            for nm, typ, ver, node in it.root.yaml_calls:
+                if nm == role:
+                    st.add((repr(typ), repr(ver)))
+        if not st:
+            ctx.undecided("R19.6", f, f.node, f"{f.qual}:yaml-object", f"no yaml.{role}(...) call observed")
+            return
+        states[role] = (f, st)
+    (fl, sl), (fd, sd) = states["load"], states["dump"]
+    ctx.decide("R19.6", fl, fl.node, "yaml:dialect-agreement", "loader and dumper use the same YAML typ and version (scalars resolve alike on both sides)", sl == sd and len(sl) == 1, {"load (typ, version)": sorted(sl), "dump (typ, version)": sorted(sd)})
 
 
 def check_config_names(ctx: Ctx):
